@@ -150,6 +150,27 @@ func (p *prop) Exec(lines []string) []string {
 	outs := make([]string, len(lines))
 	for i, l := range lines {
 		outs[i] = p.ask(l)
+		// outcome classes per entry point, for the evidence
+		op, cls := l, outs[i]
+		if j := strings.IndexByte(op, ' '); j >= 0 {
+			op = op[:j]
+		}
+		if j := strings.IndexAny(cls, " ["); j >= 0 {
+			cls = cls[:j]
+		}
+		if strings.HasPrefix(outs[i], "[") {
+			cls = "items"
+			if j := strings.LastIndex(outs[i], "end="); j >= 0 {
+				cls = "items-" + outs[i][j:]
+			}
+		}
+		if strings.HasPrefix(cls, "panic:") || strings.HasPrefix(cls, "crash:") {
+			cls = cls[:5]
+		}
+		if outs[i] == "ok illformed" {
+			cls = "ok-illformed"
+		}
+		vh.Count(op + ":" + cls)
 	}
 	return outs
 }
@@ -321,7 +342,11 @@ func genEncoding(r *vh.Rng, keys []uint64, withOps bool) []byte {
 
 func mutate(r *vh.Rng, b []byte) []byte {
 	b = append([]byte(nil), b...)
-	switch r.Intn(8) {
+	switch r.Intn(9) {
+	case 8: // short read: the last few bytes are missing (length checks at the very end of a section)
+		if n := r.Range(1, 16); len(b) > n {
+			b = b[:len(b)-n]
+		}
 	case 0, 1:
 		if len(b) > 0 {
 			b = b[:r.Intn(len(b))]
@@ -589,7 +614,7 @@ func (p *prop) Gen(r *vh.Rng, tier string, n int) []vh.Case {
 	}
 	if tier == "thorough" {
 		// every truncation point and every single-byte corruption of a few small encodings
-		for k := 0; k < 40 && k < n; k++ {
+		for k := 0; k < 16 && k < n; k++ {
 			cr := r.Fork()
 			enc := genEncoding(cr, pilosaKeys[:4], true)
 			if len(enc) > 400 {
@@ -715,24 +740,68 @@ func (cs *childState) execLine(l string) string {
 		g, free := codec.Guard(d)
 		defer free()
 		b := codec.NewBitmap(ws[1])
-		if err := b.UnmarshalBinary(g); err != nil {
-			return "err:" + codec.ErrClass(err)
-		}
-		ops, opN := roaring.VerifC04Ops(b)
+		var derr error
+		full := guardPanic(func() string {
+			derr = b.UnmarshalBinary(g)
+			return ""
+		})
+		structural := derr != nil && !strings.HasPrefix(codec.ErrClass(derr), "op-")
+		// The containers as loaded, before the op log is replayed: for Pilosa data whose header,
+		// offset and container sections were accepted, decode the bytes in front of the op log on
+		// their own (for official data, and without ops, that is the bitmap itself).
 		loaded := b
-		if ops > 0 {
-			// the containers as loaded, before the op log was replayed: decode the bytes in
-			// front of the op log once more
-			oo := roaring.VerifC06OpsOffset(d)
-			g2, free2 := codec.Guard(d[:oo])
-			defer free2()
-			loaded = codec.NewBitmap(ws[1])
-			if err := loaded.UnmarshalBinary(g2); err != nil {
-				return "err:prefix-decode:" + codec.ErrClass(err)
+		if len(d) >= 2 && d[0] == 0x3c && d[1] == 0x30 && !structural {
+			prefixOK := false
+			_ = guardPanic(func() string {
+				oo := roaring.VerifC06OpsOffset(d)
+				if oo < 8 || oo > len(d) {
+					return ""
+				}
+				g2, free2 := codec.Guard(d[:oo])
+				defer free2()
+				pb := codec.NewBitmap(ws[1])
+				if err := pb.UnmarshalBinary(g2); err == nil {
+					for _, it := range roaring.VerifC06Containers(pb) {
+						if !itemWf(it) {
+							return ""
+						}
+					}
+					prefixOK = true
+				}
+				return ""
+			})
+			if !prefixOK {
+				// either inconsistent containers, or the prefix could not be decoded on its own
+				// (a container reaching behind the op-log start): the latter falls through to the
+				// check of the final containers below
+				ill := false
+				_ = guardPanic(func() string {
+					oo := roaring.VerifC06OpsOffset(d)
+					if oo < 8 || oo > len(d) {
+						return ""
+					}
+					g2, free2 := codec.Guard(d[:oo])
+					defer free2()
+					pb := codec.NewBitmap(ws[1])
+					if err := pb.UnmarshalBinary(g2); err == nil {
+						ill = true
+					}
+					return ""
+				})
+				if ill {
+					return "ok illformed"
+				}
 			}
 		}
+		if full != "" {
+			return full
+		}
+		if derr != nil {
+			return "err:" + codec.ErrClass(derr)
+		}
+		ops, opN := roaring.VerifC04Ops(b)
 		for _, it := range roaring.VerifC06Containers(loaded) {
-			if !itemWf(it) {
+			if !itemWf(it) && ops == 0 {
 				return "ok illformed"
 			}
 		}
